@@ -11,6 +11,7 @@
 From Coq Require Import ZArith List Bool Sorted Lia.
 Require Import DS.Model.MetaBase DS.Gen.GenRepoint DS.Model.Meta DS.Model.MetaSpec.
 Require Import DS.Proofs.RepointProofs DS.Proofs.MetaProofs.
+Require Import DS.Model.MetaPy DS.Gen.GenMeta DS.Proofs.MetaGenProofs.
 Import ListNotations.
 Open Scope Z_scope.
 
@@ -162,6 +163,25 @@ Theorem C15_mlog_names_superseded : forall (t0 f0 : Z) (ops : list op) (e : Z * 
   In e (removelast (versions_of t0 f0 ops)) /\ snd e <> curfile (replay t0 f0 ops).
 Proof. exact mlog_names_superseded. Qed.
 Print Assumptions C15_mlog_names_superseded.
+
+(* The mutators the theorems above reason about are the functions of the SOURCE: Model/Meta.v's expire,
+   apply_retention, most_recent, by_timestamp and append_mlog are equal, for ALL inputs, to the definitions the
+   translator regenerates on every run from Transaction._make_expire_mutator, SnapshotManager._apply_retention,
+   _most_recent_snapshot_id, get_snapshot_by_timestamp and MetadataManager._append_metadata_log (Gen/GenMeta.v;
+   statement-by-statement translation over the Python primitives of Model/MetaPy.v).  A change to one of those
+   functions changes the generated term, and this theorem -- and with it the tie of every history theorem of this
+   file to the code -- is re-checked against it.  (_most_recent_snapshot_id never raises: PyOk.) *)
+Theorem C15_mutators_regenerated :
+  (forall cutoff m, gen_expire cutoff m = expire cutoff m)
+  /\ (forall m, gen_apply_retention m = apply_retention m)
+  /\ (forall m, gen_most_recent m = PyOk (most_recent m))
+  /\ (forall m t, gen_by_timestamp (snaps m) t = by_timestamp m t)
+  /\ (forall p log bu pf, gen_append_mlog p log bu pf = append_mlog p log bu pf).
+Proof.
+  split; [exact gen_expire_agrees|]. split; [exact gen_apply_retention_agrees|]. split; [exact gen_most_recent_agrees|].
+  split; [exact gen_by_timestamp_agrees | exact gen_append_mlog_agrees].
+Qed.
+Print Assumptions C15_mutators_regenerated.
 
 (* ------------------------------------------------------------------ C09 pieces proved over the same model
    (re-exported by Props/C09.v): lookups by timestamp / by id, and deleting the current snapshot. *)
